@@ -4,12 +4,14 @@
 -/
 import Mcp.Drv.Util
 import Mcp.Drv.Retry
+import Mcp.Drv.Session
 open Lean
 
 def dispatch (j : Json) : Except String Json := do
   let c ← Mcp.Drv.getStr j "c"
   match c.splitOn "." with
   | ["retry", op] => Mcp.Drv.Retry.handle op j
+  | ["session", op] => Mcp.Drv.Session.handle op j
   | _ => throw s!"unknown component {c}"
 
 partial def loop (hin : IO.FS.Stream) (hout : IO.FS.Stream) : IO Unit := do
